@@ -41,6 +41,45 @@ def check(repo, rep):
     for d in sw.paths:
         w = d['where']
         tag = 'split[%s]' % ('AudioReader input' if d['reader_branch'] else 'other input')
+        if d.get('empty'):
+            # split() answers "no detections" without tokenizing: right only if the guard implies that no event fits.  Decided by
+            # values: inputs on which an event exists (lengths are counted in analysis windows and a trailing partial window counts:
+            # a region of 0.25 s holds three 0.1 s windows = min_dur 0.3 s) are taken through the path's conditions
+            from ..semantic import evaluator
+            from ..termeval import NotEvaluable
+            verdict = None
+            for dur_, min_, aw_ in ((0.25, 0.3, 0.1), (0.1, 0.2, 0.2)):
+                assign = {('p', 'min_dur'): min_, ('p', 'max_dur'): 5.0, ('p', 'max_silence'): 0.0}
+                for x in (c[0] for c in d['leaf'].conds):
+                    for t in walk(x):
+                        if t[0] == 'attr' and t[2] in ('duration', 'dur') and t[1][0] in ('p', 'attr'):
+                            assign[t] = dur_
+                        if t[0] == 'call' and t[1] == ('b', 'len'):
+                            assign[t] = 5
+                taken = True
+                guarded = False          # a condition relating the length of the input to a duration parameter decided the path
+                for ct, tr, _ in d['leaf'].conds:
+                    try:
+                        ev_ = evaluator(assign, mode='frac')
+                        got = ev_.ev(ct)
+                    except NotEvaluable:
+                        continue
+                    if ev_.leaves:
+                        continue         # depends on something the point does not fix (another option): compatible with the point
+                    if bool(got) != tr:
+                        taken = False
+                        break
+                    if any(t in assign and t[0] != 'p' for t in walk(ct)) and any(t[0] == 'p' and t[1] in ('min_dur', 'max_dur') for t in walk(ct)):
+                        guarded = True
+                if taken and guarded:
+                    verdict = (dur_, min_, aw_)
+                    break
+            if isinstance(verdict, tuple):
+                rep.ob('split() reports no detection only after tokenizing (an early empty answer must imply that no event fits)', False, w, tag + ':early-empty',
+                       'an input of %.2f s with min_dur=%.1f and a window of %.1f s holds an event (a trailing partial window counts) and takes the path that returns %s' % (verdict + (show(d['leaf'].value)[:30],)))
+            else:
+                rep.unknown('split(): a path returns an empty answer without tokenizing (%s); whether its guard implies that no event fits was not decided' % show(d['leaf'].value)[:40])
+            continue
         if d['lazy'] is None:
             rep.unknown('split(): return value %s is not a recognised iterable form' % show(d['leaf'].value)[:80])
             continue
